@@ -217,7 +217,7 @@ def _split_propagate(o, fn, pv, depth=0):
         elif is_call(term, FROM_RESIDUAL):
             o2 = _classify(term, dbb, "term", fn, pv)
             o2["via"] = o["bb"]
-            res.extend(_split_propagate(o2, fn, pv, depth + 1) or [o2])
+            res.extend(_split_propagate(o2, fn, pv, depth + 1) or _expand_combinators(o2, fn, pv) or [o2])
         elif is_call(term) and always_err_fn(fn.prog, term[1]):
             res.append({"kind": "call", "term": term, "inner": term, "bb": dbb, "idx": "term",
                         "conds": conditions(fn, pv, dbb), "line": line, "via": o["bb"]})
@@ -399,7 +399,22 @@ def path_rows(fn, pv, limit=4000, precise=False):
 _TRY_BRANCH = "core::ops::try_trait::Try::branch"
 
 
-def reach_tracking_failures(f, start, avoid):
+def _always_err(prog, name):
+    from .prov import always_err_fn
+    try:
+        return always_err_fn(prog, name)
+    except Exception:
+        return False
+
+
+def back_edges_taken(f, start, avoid, header):
+    """sources of the edges into `header` that can be taken on a walk from `start` avoiding `avoid` (failure-following)"""
+    edges = set()
+    reach_tracking_failures(f, start, set(avoid), edges)
+    return sorted(a for a, b in edges if b == header)
+
+
+def reach_tracking_failures(f, start, avoid, edges=None):
     """blocks reachable from `start` without entering a block of `avoid`, not following infeasible failure edges.
 
     The walk carries the locals known to hold a failure: a value made by from_residual / `Err(..)`, a plain move of one,
@@ -443,6 +458,8 @@ def reach_tracking_failures(f, start, avoid):
             a0 = t["args"][0] if t["args"] else None
             if name == FROM_RESIDUAL and "Result<" in (f.local_ty(l) or ""):
                 fail.add(l)
+            elif name and _always_err(f.prog, name):
+                fail.add(l)         # `return cbor_type_error(..)`: a function all of whose exits are Err
             elif name == _TRY_BRANCH and a0 and a0["k"] in ("move", "copy") and not a0["place"]["p"] and a0["place"]["l"] in fail:
                 fail.add(l)
         elif t["k"] == "switch" and t["op"]["k"] in ("move", "copy") and not t["op"]["place"]["p"] and t["op"]["place"]["l"] in dv:
@@ -451,5 +468,7 @@ def reach_tracking_failures(f, start, avoid):
             succ = tg[:1] if tg else [t["otherwise"]]
         st = (frozenset(fail), frozenset(dv.items()))
         for y in succ:
+            if edges is not None:
+                edges.add((bb, y))
             stack.append((y, st[0], st[1]))
     return seen
